@@ -838,8 +838,14 @@ def r_idcounter(prog, tier):
         if n.kind == 'stmt' and isinstance(n.ast, ast.AugAssign) and isinstance(n.ast.target, ast.Name) \
                 and unparse(n.ast).endswith('+= 1') and n.loops:
             counters.setdefault(n.ast.target.id, []).append(n)
+    idc = set()
+    for c in counters:
+        inits = [v for (n2, v) in name_defs(f, c) if isinstance(v, ast.Constant) and isinstance(v.value, int)
+                 and not cfg.nodes[n2].loops]
+        if inits:
+            idc.add(c)
     for c, incs in sorted(counters.items()):
-        if not c.endswith('_id'):
+        if c not in idc:
             continue
         for inc in incs:
             L0 = inc.loops[0]
@@ -858,8 +864,8 @@ def r_idcounter(prog, tier):
                           '`%s += 1` (line %d) is not executed once per labelled item: uses at lines %s are in another '
                           'loop level' % (c, inc.lineno, sorted(set(u.lineno for u in bad))),
                           construct='idcounter:' + c, line=inc.lineno))
-    if not any(c.endswith('_id') for c in counters):
-        raise AnalysisError('pmcfg writer has no id counters')
+    if len(idc) < 2:
+        raise AnalysisError('pmcfg writer: %d id counters found (2 expected)' % len(idc))
     return obs, {}
 
 
